@@ -304,11 +304,16 @@ def run(case, obs):
     if not any(t in (u, v) for u, v, _ in arcs3):
         obs.event("mf.cover.sink-not-in-arcs")
 
-    truth, cut = O.max_flow(n, arcs3, s, t)
-    obs.mode("exact")
-    obs.nontrivial = truth >= 1
-    if O.ek_without_implicit_reverse(n, arcs3, s, t) < truth:
-        obs.event("mf.cover.reverse-arc-needed")
+    try:
+        truth, cut = O.max_flow(n, arcs3, s, t)
+        obs.mode("exact")
+        obs.nontrivial = truth >= 1
+        if O.ek_without_implicit_reverse(n, arcs3, s, t) < truth:
+            obs.event("mf.cover.reverse-arc-needed")
+    except O.TooBig:
+        truth, cut = None, set()          # above the oracle's size guard: feasibility + residual-BFS certificate only
+        obs.mode("certificate_only")
+        obs.nontrivial = True
 
     res = call(obs, _flow.max_flow, _graph(case), lab[s], lab[t], what="max_flow", budget=3_000_000)
     if is_crash(res):
@@ -363,6 +368,8 @@ def run(case, obs):
         if p is not None:
             obs.violate("flow.augmenting-path", f"residual network of the returned flow still has the path {[lab[x] for x in p]!r}; "
                                                 f"value {-net[t]}, maximum {truth}")
+    if truth is None:
+        return
     obs.event("mf.oracle.value")
     if obj != truth:
         cutarcs = [(lab[u], lab[v], c) for u, v, c in arcs3 if u in cut and v not in cut and c > 0]
